@@ -350,11 +350,14 @@ class StreamableHTTPTransport(Transport):
                         continue
 
                     # Parse SSE format
-                    if line.startswith("event: "):
-                        current_event = line[7:].strip()
-                    elif line.startswith("data: "):
-                        data = line[6:]  # Keep formatting
-                        event_data.append(data)
+                    parsed = self._parse_sse_line(line)
+                    if parsed is None:
+                        continue
+                    field, value = parsed
+                    if field == "event":
+                        current_event = value.strip()
+                    elif field == "data":
+                        event_data.append(value)  # Keep formatting
 
             # Process any remaining event
             if current_event and event_data:
@@ -368,6 +371,23 @@ class StreamableHTTPTransport(Transport):
                 "error": {"code": -32603, "message": str(e)},
             }
             await self._route_response(error_response)
+
+    @staticmethod
+    def _parse_sse_line(line: str) -> Optional[Tuple[str, str]]:
+        """
+        Split one non-empty SSE line into (field, value); None for a comment.
+
+        Follows the event-stream grammar: the field name ends at the first
+        colon, a single space after the colon is not part of the value, a line
+        without a colon is a field with an empty value and a line starting
+        with a colon is a comment.
+        """
+        if line.startswith(":"):
+            return None
+        field, _, value = line.partition(":")
+        if value.startswith(" "):
+            value = value[1:]
+        return field, value
 
     async def _process_sse_text(self, text: str, message_id: str) -> None:
         """Process SSE text that's already fully loaded."""
@@ -390,11 +410,14 @@ class StreamableHTTPTransport(Transport):
                     continue
 
                 # Parse SSE format
-                if line.startswith("event: "):
-                    current_event = line[7:].strip()
-                elif line.startswith("data: "):
-                    data = line[6:]  # Keep formatting
-                    event_data.append(data)
+                parsed = self._parse_sse_line(line)
+                if parsed is None:
+                    continue
+                field, value = parsed
+                if field == "event":
+                    current_event = value.strip()
+                elif field == "data":
+                    event_data.append(value)  # Keep formatting
 
             # Process any remaining event
             if current_event and event_data:
